@@ -43,7 +43,8 @@ func main() {
 	tier := fs.String("tier", "quick", "quick|thorough")
 	out := fs.String("out", "-", "trace output")
 	stats := fs.String("stats", "", "stats output (json)")
-	replay := fs.String("replay", "", "replay file (property specific)")
+	onlyCase := fs.Int("only-case", 0, "replay: write only the records of this case")
+	onlyLine := fs.Int("only-line", 0, "replay: write only this record")
 	fs.Parse(os.Args[2:])
 	if s := os.Getenv("VERIF_SEED"); s != "" && !flagSet(fs, "seed") {
 		if v, err := strconv.ParseUint(s, 10, 64); err == nil {
@@ -70,7 +71,7 @@ func main() {
 		fmt.Fprintln(os.Stderr, "unknown property", prop)
 		os.Exit(2)
 	}
-	_ = replay
+	c.M.OnlyCase, c.M.OnlyLine = *onlyCase, *onlyLine
 	run(c)
 	w.Flush()
 	if *stats != "" {
